@@ -1,8 +1,9 @@
 #!/bin/bash
-# usage: tools/runall.sh [tier] [seed]   -- runs every registered check once, prints exit codes and times
+# usage: tools/runall.sh [tier] [seed] ["C01 C02 ..."]   -- runs every registered check (or the listed ones) once, prints exit codes and times
 tier=${1:-quick}; seed=${2:-1}
 cd "$(dirname "$0")/.."
-for p in $(/venv/bin/python -c "import json;print(' '.join(c['property_id'] for c in json.load(open('MANIFEST.json'))['checks']))"); do
+checks=${3:-$(/venv/bin/python -c "import json;print(' '.join(c['property_id'] for c in json.load(open('MANIFEST.json'))['checks']))")}
+for p in $checks; do
   s=$(date +%s)
   VERIF_SEED=$seed /venv/bin/python -m vpbt $p --tier $tier > /tmp/runall_${tier}_$p.log 2>&1
   rc=$?
